@@ -871,6 +871,17 @@ def rule_nameslice(P) -> RuleResult:
     if len(subs) != 1:
         raise AnalysisError(f'{text.fq}: slice of the statement text not found')
     sl = subs[0].slice
+    # the property's value is the slice itself: nothing may be done to the text that was cut out
+    rets = [n for n in ast.walk(text.node) if isinstance(n, ast.Return) and n.value is not None and not is_none(n.value)]
+    for r in rets:
+        v = r.value
+        if isinstance(v, ast.Name):
+            d = [n for n in ast.walk(text.node) if isinstance(n, ast.Assign) and unparse(n.targets[0]) == v.id]
+            v = d[-1].value if d else v
+        if v is not subs[0]:
+            res.fail(text.fq, 'nameslice:exact', f'the name of an expression target is the exact source text of the expression; '
+                     f'Node.text returns `{unparse(r.value)}` instead of the slice of the statement text', loc(text, r))
+            return res
     lo, hi = unparse(sl.lower) if sl.lower else '', unparse(sl.upper) if sl.upper else ''
     if sl.step is None and lo.endswith('.pos') and hi.endswith('.endpos') and lo[:-4] == hi[:-7]:
         base = unparse(subs[0].value)
@@ -1004,4 +1015,180 @@ def rule_foldsafe(P) -> RuleResult:
                      loc(fi, n))
         else:
             res.ok({'site': fi.fq, 'kind': kind, 'foldable_overloads_that_can_raise': len(examples), 'protected': protected})
+    return res
+
+
+# ----------------------------------------------------------------------
+# R-IMPLICITCAST (C01, C04): untyped operands of a binary operator are cast to the type of the other side
+
+def rule_implicitcast(P) -> RuleResult:
+    import decimal as _dec
+    res = RuleResult('R-IMPLICITCAST')
+    reg = registry.get(P)
+    fi = _method(P, '_binaryop')
+    blocks = []
+    for n in ast.walk(fi.node):
+        if isinstance(n, ast.If) and isinstance(n.test, ast.BoolOp) and isinstance(n.test.op, ast.And) and len(n.test.values) == 2:
+            a, b = (unparse(v) for v in n.test.values)
+            mm = re.fullmatch(r'(\w+)\.dtype is object', a)
+            nn = re.fullmatch(r'(\w+)\.dtype is not object', b)
+            if mm and nn and mm.group(1) != nn.group(1):
+                blocks.append((mm.group(1), nn.group(1), n))
+    if len(blocks) != 2:
+        raise AnalysisError(f'{fi.fq}: the two implicit-cast branches (untyped left / untyped right) not found')
+    (u1, t1, b1), (u2, t2, b2) = blocks
+    if {u1, u2} != {t1, t2}:
+        raise AnalysisError(f'{fi.fq}: implicit-cast branches do not mirror each other')
+    # (1) sibling symmetry: swapping the operand names turns one branch into the other
+    def swapped(node):
+        src = unparse(node)
+        return re.sub(r'\b(%s|%s)\b' % (u1, u2), lambda m: u2 if m.group(1) == u1 else u1, src)
+    if swapped(b1) != unparse(b2):
+        res.fail(f'{fi.fq}:implicit-cast', 'implicitcast:asymmetric',
+                 f'the branch casting an untyped {u1} operand and the one casting an untyped {u2} operand are not mirror images: '
+                 f'an expression and its mirrored form get different casts', loc(fi, b1))
+    else:
+        res.ok({'site': fi.fq, 'branches': 'mirror images'})
+    # (2) which cast is chosen for each type of the typed side
+    names = {'int': int, 'Decimal': _dec.Decimal, 'object': object}
+    for untyped, typed, blk in blocks:
+        for t in list(reg.types_map) + [dict]:
+            casts = []
+
+            def exprh(e, st, m, _t=t, _typed=typed, _untyped=untyped):
+                s = unparse(e)
+                if s == f'{_typed}.dtype':
+                    return _t
+                if s == f'{_untyped}.dtype':
+                    return object
+                return finite.Sym(s)
+
+            def callh(e, st, m, _casts=casts):
+                s = unparse(e.func)
+                if s == 'types.MAP.get' and len(e.args) == 1:
+                    return reg.types_map.get(m.ev(e.args[0], st))
+                if s.startswith('types.function_lookup(FUNCTIONS'):
+                    inner = e.func
+                    _casts.append(m.ev(inner.args[1], st))
+                    return finite.Sym('CAST')
+                if s == 'types.function_lookup' and len(e.args) >= 2:
+                    return ('LOOKUP', m.ev(e.args[1], st))
+                if isinstance(e.func, ast.Name) and e.func.id in st and isinstance(st[e.func.id], tuple) \
+                        and st[e.func.id] and st[e.func.id][0] == 'LOOKUP':
+                    _casts.append(st[e.func.id][1])
+                    return finite.Sym('CAST')
+                return finite.Sym(s)
+            def subh(e, st, m):
+                if unparse(e.value) == 'types.MAP':
+                    k = m.ev(e.slice, st)
+                    if k not in reg.types_map:
+                        raise KeyError(k)
+                    return reg.types_map[k]
+                return finite.Sym(unparse(e))
+            mach = finite.Machine(expr=exprh, call=callh, subscript=subh,
+                                  names=dict(names, **{untyped: finite.Sym(untyped), typed: finite.Sym(typed)}))
+            outcome = 'fallthrough'
+            try:
+                mach.run(blk.body, {})
+            except KeyError:
+                outcome = 'KeyError'
+            except finite.Break:
+                outcome = 'break'
+            except finite.Continue:
+                outcome = 'continue'
+            except finite.Return:
+                outcome = 'return'
+            want_t = _dec.Decimal if t is int else t
+            want = reg.types_map.get(want_t)
+            label = f'untyped {untyped} with {t.__name__} on the other side'
+            if outcome == 'KeyError':
+                res.fail(f'{fi.fq}:implicit-cast', f'implicitcast:{untyped}:{t.__name__}:KeyError',
+                         f'{label}: the cast lookup raises KeyError instead of rejecting the operator with a CompilationError',
+                         loc(fi, blk))
+            elif want is None:
+                if outcome != 'break' or casts:
+                    res.fail(f'{fi.fq}:implicit-cast', f'implicitcast:{untyped}:{t.__name__}',
+                             f'{label}: there is no cast to {t.__name__}; the operator must be rejected, got {outcome} {casts}', loc(fi, blk))
+                else:
+                    res.ok({'case': label, 'outcome': 'rejected'})
+            elif casts != [want] or outcome != 'continue':
+                res.fail(f'{fi.fq}:implicit-cast', f'implicitcast:{untyped}:{t.__name__}',
+                         f'{label}: the untyped operand must be cast with {want}() '
+                         + ('(untyped numbers are decimals: casting to int would lose information) ' if t is int else '')
+                         + f'and resolution retried; got casts {casts}, {outcome}', loc(fi, blk))
+            else:
+                res.ok({'case': label, 'cast': want})
+    return res
+
+
+# ----------------------------------------------------------------------
+# R-COALESCE (C04): COALESCE announces the type of its first argument, so all arguments must have that type
+
+def rule_coalesce(P) -> RuleResult:
+    import datetime as _dt
+    import decimal as _dec
+    res = RuleResult('R-COALESCE')
+    res.exhaustive = True
+    fi = _method(P, '_function')
+    blk = None
+    for n in ast.walk(fi.node):
+        if isinstance(n, ast.If) and 'coalesce' in unparse(n.test) and 'fname' in unparse(n.test):
+            blk = n
+    if blk is None:
+        raise AnalysisError(f'{fi.fq}: the COALESCE branch not found')
+    # what EvalCoalesce announces
+    ec = P.cls(QC, 'EvalCoalesce')
+    init = ec.methods.get('__init__')
+    if init is None or 'args[0].dtype' not in unparse(init.node):
+        raise AnalysisError('EvalCoalesce no longer announces the type of its first argument: rule not applicable as written')
+    loops = [n for n in blk.body if isinstance(n, ast.For)]
+    if len(loops) != 1 or not isinstance(loops[0].target, ast.Name):
+        res.fail(f'{fi.fq}:coalesce', 'coalesce:unchecked', 'COALESCE arguments are not checked for a uniform type', loc(fi, blk))
+        return res
+    lp = loops[0]
+    ov = lp.target.id
+    seq = unparse(lp.iter)
+    types_ = [str, int, bool, _dec.Decimal, _dt.date, object]
+    ok = True
+    n = 0
+    for first in types_:
+        for other in types_:
+            n += 1
+
+            def exprh(e, st, m, _f=first, _o=other):
+                s = unparse(e)
+                if s == f'{ov}.dtype':
+                    return _o
+                if s == f'{seq}[0].dtype':
+                    return _f
+                return finite.Sym(s)
+
+            def callh(e, st, m):
+                s = unparse(e.func)
+                if s == 'issubclass' and len(e.args) == 2:
+                    a, b = (m.ev(x, st) for x in e.args)
+                    return issubclass(a, b)
+                return finite.Sym(s)
+            mach = finite.Machine(expr=exprh, call=callh, names={ov: finite.Sym(ov), seq: finite.Sym(seq), 'node': finite.Sym('node')})
+            mach.comprehensions = True
+            raised = False
+            try:
+                st0 = mach.run(blk.body[:blk.body.index(lp)], {})
+                mach.run(lp.body, st0)
+            except finite.Return as r:
+                raised = isinstance(r.value, tuple) and r.value and r.value[0] == 'raise'
+            except (finite.Continue, finite.Break):
+                pass
+            want = first is not other
+            if raised != want:
+                ok = False
+                res.fail(f'{fi.fq}:coalesce', f'coalesce:{first.__name__}:{other.__name__}',
+                         f'coalesce(<{first.__name__}>, <{other.__name__}>) is {"rejected" if raised else "accepted"}; the result is '
+                         f'announced as {first.__name__}, so an argument of type {other.__name__} must be '
+                         f'{"accepted" if not want else "rejected"}', loc(fi, lp))
+                break
+        if not ok:
+            break
+    if ok:
+        res.ok({'site': fi.fq, 'type_pairs_executed': n, 'accepts': 'only arguments of the first argument\'s type'})
     return res
